@@ -113,11 +113,12 @@ def run(tier):
     rnd = random.Random(chk.seed * 65537 + 20)
     quick = tier == "quick"
     dump = chk.work / "val"
-    res = tlc.run("MC_Validate", "MC_Validate.cfg", workdir=chk.work, workers=16, dump=dump, timeout=1800)
+    res = tlc.run("MC_Validate", "MC_Validate.cfg", workdir=chk.work, workers=16, dump=dump, timeout=1800, coverage=True)
     if res.violated:
         chk.violation(f"C20|spec-theorem|{','.join(res.violated)}", "a fault action leaves the table Valid or a benign action breaks it (fault model error)", {"out": res.out[-2500:]})
         return chk.finish()
     chk.add_mc(res, "MC_Validate")
+    chk.require_actions(res, 10, "MC_Validate (9 fault classes + benign re-encoding)")
     states = tlaval.read_dump(str(dump) + ".dump")
     Path(str(dump) + ".dump").unlink()
     nf = lambda s: sum(1 for h in s["hist"] if h["fault"])  # noqa: E731
